@@ -309,6 +309,7 @@ def run_property(modname, tier, seed_value):
     known = Known(pid)
     total = Stats()
     per_part = {}
+    per_part_wall = {}
     exhaustive = {}
     budget = float(os.environ.get('VF_BUDGET_S', '0')) or None
     budget_exhausted = False
@@ -341,6 +342,7 @@ def run_property(modname, tier, seed_value):
         for part in parts:
             kind, name = part[0], part[1]
             before = total.evaluations
+            t_part = time.time()
             if budget and time.time() - t0 > budget:
                 budget_exhausted = True
                 break
@@ -353,7 +355,8 @@ def run_property(modname, tier, seed_value):
                 exhaustive[name] = bool(exh)
             elif kind == 'hyp':
                 n = part[2]
-                shards = min(NCPU, max(1, n // 20))
+                min_per = part[3] if len(part) > 3 else 20
+                shards = min(NCPU, max(1, n // min_per))
                 per = max(1, n // shards)
                 jobs = [(modname, name, per, seed_value * 64 + i, tier) for i in range(shards)]
                 for st in pool.imap_unordered(_w_hyp, jobs):
@@ -368,6 +371,7 @@ def run_property(modname, tier, seed_value):
             else:
                 raise ValueError(kind)
             per_part[name] = total.evaluations - before
+            per_part_wall[name] = round(time.time() - t_part, 1)
 
     # 3. confirm + report unknown failures (re-executed here, in another process
     #    than the worker that found them, before being believed)
@@ -411,6 +415,7 @@ def run_property(modname, tier, seed_value):
             'exhaustive': bool(exhaustive) and all(exhaustive.values()),
             'exhaustive_parts': exhaustive,
             'per_part_evaluations': per_part,
+            'per_part_wall_s': per_part_wall,
             'labels': dict(total.labels.most_common(60)),
             'known_finding_hits': dict(total.known_hits),
             'known_findings_open': [fd['id'] for fd in still_open],
